@@ -69,6 +69,31 @@ def clean(traces):
     return c(traces)
 
 
+def validate_parallel(traces, name='session', jobs=8, chunk=60):
+    """validate in several TLC processes; returns one merged Verdict (trace indexes global)"""
+    from concurrent.futures import ThreadPoolExecutor
+    if len(traces) <= chunk:
+        return validate(traces, name=name)
+    parts = [(i, traces[i:i + chunk]) for i in range(0, len(traces), chunk)]
+    # fewer, larger parts than jobs make no sense: rebalance
+    if len(parts) > jobs:
+        size = (len(traces) + jobs - 1) // jobs
+        size = min(max(size, chunk), 400)
+        parts = [(i, traces[i:i + size]) for i in range(0, len(traces), size)]
+    out = Verdict()
+    with ThreadPoolExecutor(max_workers=jobs) as ex:
+        results = list(ex.map(lambda p: (p[0], validate(p[1], name='%s-%d' % (name, p[0]))), parts))
+    for off, v in results:
+        out.fails += [(t + off, l, a) for t, l, a in v.fails]
+        out.done |= {t + off for t in v.done}
+        out.ntraces += v.ntraces
+        out.nsteps += v.nsteps
+        out.states += v.states
+        out.transitions += v.transitions
+        out.wall = max(out.wall, v.wall)
+    return out
+
+
 def validate(traces, name='session', keep=False, workers=1):
     os.makedirs(TMP, exist_ok=True)
     traces = clean(traces)
